@@ -1,4 +1,138 @@
-import ShootVerif.Spec.Enum
+import ShootVerif.Proofs.EnumBit
+import ShootVerif.Proofs.EnumBasic
+/-!
+C14 — with -bit, Has/Add/Remove implement set algebra on the flag bits: after Add(f) Has(f) is true,
+after Remove(f) Has(f) is false for a non-zero f, and bits outside f are untouched.  String() of a
+union of declared flags is their names joined by ", " in ascending flag order, the declared name
+for a declared value, and the decimal form for anything else.
+
+All theorems are for `BitVec w` with `w` arbitrary (so for int8 … uint64 alike), every value `x`,
+every flag `f`, and every table `t` of the grammar (`WFt`: ascending distinct values, each zero / a
+single bit / a union of declared single bits, any number of flags).  Nothing is bounded.
+-/
+namespace ShootVerif.Enum.Bit
+variable {w : Nat}
+
+/-- after Add(f), Has(f) -/
+theorem C14_add_has (x f : BitVec w) : has (add x f) f = true := add_has x f
+
+/-- after Remove(f), not Has(f) — for a non-zero f (Has(0) is always true) -/
+theorem C14_remove_has (x f : BitVec w) (hf : f ≠ 0) : has (remove x f) f = false := remove_has x f hf
+
+/-- Add and Remove leave every bit outside f untouched -/
+theorem C14_frame (x f : BitVec w) :
+    add x f &&& ~~~f = x &&& ~~~f ∧ remove x f &&& ~~~f = x &&& ~~~f := ⟨add_frame x f, remove_frame x f⟩
+
+/-- set algebra, bit by bit: Has is ⊆, Add is ∪, Remove is \ -/
+theorem C14_set_algebra (x f : BitVec w) :
+    (has x f = true ↔ ∀ i, f.getLsbD i = true → x.getLsbD i = true) ∧
+    (∀ i, (add x f).getLsbD i = (x.getLsbD i || f.getLsbD i)) ∧
+    (∀ i, (remove x f).getLsbD i = (x.getLsbD i && !f.getLsbD i)) :=
+  ⟨has_iff_bits x f, add_bits x f, remove_bits x f⟩
+
+/-- the three methods are the bit-by-bit specification functions the check evaluates -/
+theorem C14_ops_spec (x f : BitVec w) :
+    has x f = specHas x f ∧ add x f = specAdd x f ∧ remove x f = specRemove x f :=
+  ⟨(specHas_eq x f).symm, (specAdd_eq x f).symm, (specRemove_eq x f).symm⟩
+
+/-- Add and Remove of the same flag undo each other on the flag's bits; both are idempotent -/
+theorem C14_idempotent (x f : BitVec w) :
+    add (add x f) f = add x f ∧ remove (remove x f) f = remove x f ∧ remove (add x f) f = remove x f := by
+  refine ⟨?_, ?_, ?_⟩ <;>
+  · simp only [add, remove]
+    ext i hi
+    simp only [BitVec.getElem_and, BitVec.getElem_or, BitVec.getElem_not]
+    cases x[i] <;> cases f[i] <;> rfl
+
+/-- the composite String loop of the template computes the specification, for EVERY value -/
+theorem C14_string_spec (signed : Bool) (t : Table w) (h : WFt signed t = true) (x : BitVec w) :
+    string signed t x = specString signed t x := string_eq_spec h x
+
+/-- a declared value prints its (trimmed) name -/
+theorem C14_string_declared (signed : Bool) (t : Table w) (h : WFt signed t = true)
+    (e : BitVec w × Name) (he : e ∈ t) : string signed t e.1 = .name e.2 := by
+  rw [string_eq_spec h]
+  unfold specString
+  rw [find?_of_mem t (WFt.facts h).sorted e he]
+
+/-- a union of declared single-bit flags (any selection `sel` of them, not empty) that is not itself
+    a declared value prints the names of exactly those flags, ascending, joined by ", " -/
+theorem C14_string_union (signed : Bool) (t : Table w) (h : WFt signed t = true)
+    (sel : BitVec w × Name → Bool)
+    (hne : t.filter (fun e => isSingle e.1 && sel e) ≠ [])
+    (hnd : ∀ e ∈ t, e.1 ≠ orAll (t.filter (fun e => isSingle e.1 && sel e))) :
+    string signed t (orAll (t.filter (fun e => isSingle e.1 && sel e))) =
+      .joined ((t.filter (fun e => isSingle e.1 && sel e)).map (·.2)) := by
+  rw [string_eq_spec h]
+  unfold specString
+  have hfind : t.find? (fun e => e.1 = orAll (t.filter (fun e => isSingle e.1 && sel e))) = none := by
+    rw [List.find?_eq_none]; intro e he; simpa using hnd e he
+  rw [hfind]
+  simp only [flagsIn_union (WFt.facts h).sorted sel]
+  rw [if_pos ⟨hne, trivial⟩]
+
+/-- anything else — not declared, and not the union of the declared flags it contains — prints in decimal -/
+theorem C14_string_other (signed : Bool) (t : Table w) (h : WFt signed t = true) (x : BitVec w)
+    (hnd : ∀ e ∈ t, e.1 ≠ x) (hnu : flagsIn t x = [] ∨ orAll (flagsIn t x) ≠ x) :
+    string signed t x = .dec (decOf signed x) := by
+  rw [string_eq_spec h]
+  unfold specString
+  have hfind : t.find? (fun e => e.1 = x) = none := by
+    rw [List.find?_eq_none]; intro e he; simpa using hnd e he
+  rw [hfind]
+  have : ¬ (flagsIn t x ≠ [] ∧ orAll (flagsIn t x) = x) := by
+    rintro ⟨h1, h2⟩
+    rcases hnu with h | h
+    · exact h1 h
+    · exact h h2
+  simp only []
+  rw [if_neg this]
+
+/-- a value with a bit that no declared constant has prints in decimal -/
+theorem C14_string_foreign_bit (signed : Bool) (t : Table w) (h : WFt signed t = true) (x : BitVec w)
+    (i : Nat) (hx : x.getLsbD i = true) (hi : ∀ e ∈ t, e.1.getLsbD i = false) :
+    string signed t x = .dec (decOf signed x) := by
+  apply C14_string_other signed t h x
+  · intro e he hex
+    rw [← hex, hi e he] at hx
+    exact absurd hx (by simp)
+  · right
+    intro hu
+    rw [← hu, orAll_bit, List.any_eq_true] at hx
+    obtain ⟨e, he, hei⟩ := hx
+    rw [hi e (List.mem_filter.mp he).1] at hei
+    exact absurd hei (by simp)
+
+end ShootVerif.Enum.Bit
+
 namespace ShootVerif.Enum
-theorem C14_placeholder : True := trivial
+
+/-- the table the -bit methods run over is the ascending table of the declared constants (C04) -/
+theorem C14_table (w : Nat) (i : Input) (h : WF i = true) :
+    Bit.table (w := w) i.T (tables i) = Bit.table i.T (specSorted i.decl) := by
+  rw [tables_eq h]
+
+/-- the emitted -bit file reads a table it does not define: it never compiles
+    (`enumer.tmpl:67`, pinned by the committed golden) -/
+theorem C14_F_undefined_map_witness :
+    F_undefined_map true = true ∧ (∀ T cs, compiles true T cs = false) ∧
+    ("_map" ∈ usedSyms true ∧ "_map" ∉ definedSyms) := by
+  refine ⟨by decide, ?_, by decide⟩
+  intro T cs
+  have : (usedSyms true).all (definedSyms.contains ·) = false := by decide
+  unfold compiles
+  rw [this, Bool.and_false]
+
+/-! ### non-vacuity: `None=0, A=1, B=2, AB=A|B, C=4` on uint8 -/
+
+def bitExample : Bit.Table 8 :=
+  [(0, ['N']), (1, ['A']), (2, ['B']), (3, ['A', 'B']), (4, ['C'])]
+
+example : Bit.WFt false bitExample = true ∧
+    Bit.string false bitExample 3 = .name ['A', 'B'] ∧
+    Bit.string false bitExample 6 = .joined [['B'], ['C']] ∧
+    Bit.string false bitExample 7 = .joined [['A'], ['B'], ['C']] ∧
+    Bit.string false bitExample 9 = .dec 9 ∧
+    Bit.string false bitExample 0 = .name ['N'] := by decide
+
 end ShootVerif.Enum
